@@ -7,12 +7,14 @@ PROP = {
         "Verif.Properties.C31.history_independent",
         "Verif.Properties.C31.history_independent_repo",
         "Verif.Properties.C31.metered_fill_history_dependent",
+        "Verif.Properties.C31.history_independent_partial",
+        "Verif.Properties.C31.shared_string_constant_witness",
     ],
     "gen": [["vtool", "gen-cachefacts"]],
     "tool_files": ["tool_cachefacts.go"],
     "streams": [
         {"name": "meterhist", "driver": "drv_meterhist",
-         "quick": {"n": 36}, "thorough": {"n": 400, "seeds": 3},
+         "quick": {"n": 40}, "thorough": {"n": 400, "seeds": 3},
          "timeout": {"quick": 600, "thorough": 3000}},
     ],
     "exhaustive": False,
@@ -35,7 +37,11 @@ PROP = {
                   "fresh process and again in a long-lived process after random other programs and after itself, both "
                   "engines each against itself, and compares the complete recorded gauge call sequences (parsing, checking, "
                   "execution) and outcomes; GetSmallIntegerValue is compared with the model's pure initialiser for all 20 "
-                  "types x 256 values (thorough).",
+                  "types x 256 values (thorough); op sharedprog runs each program twice with a host program cache kept across "
+                  "executions (first vs later execution). Known finding vm-shared-string-constant-length-memo (VM only): the "
+                  "grapheme-length memo of a string constant of a shared compiled program is metered for the first user only "
+                  "(shared_string_constant_witness in the model; history_independent_partial proves the property for programs "
+                  "that read no metered cell).",
     "level_note": "Partial: the program side is abstract (any deterministic program whose only dependence on process state is "
                   "through values read from caches); the internals of sema's caches are covered by the fact table and the "
                   "stream, not modelled. The fact extractor does not follow calls through interfaces or function values. "
